@@ -265,11 +265,8 @@ func c17Check(l *explore.Local, _ struct{}, c c17Case) *explore.Fail {
 					}
 					m.Map.Write(0xff40, lcdc&0x7f)
 				case "on":
-					if m.Map.Read(0xff41)&3 == 2 {
-						restore()
-						m.Hardware()
-						continue
-					}
+					// every position of the line, mode 2 included: what an armed cycle does to OAM is the emulated bug's
+					// business (the end state is then not judged), but every cycle that begins outside mode 2 is
 				}
 				m.Hardware() // at least one PPU tick has always happened after the switch
 				// the OAM image the reference starts from: what DMA put there (read back while no bug can be armed by the read itself matters not: reads go through PPU-side access)
@@ -298,13 +295,29 @@ func c17Check(l *explore.Local, _ struct{}, c c17Case) *explore.Fail {
 						r := toRef(regs)
 						bus := oamBus{m, &exp}
 						judged := true
+						ob := m.OAMBytes()
 						for range prog {
 							info := r.Step(bus)
 							for k := 0; k < info.Cycles; k++ {
-								if lcdOn() && m.Map.Read(0xff41)&3 == 2 {
+								armed := lcdOn() && m.Map.Read(0xff41)&3 == 2
+								if armed {
 									judged = false // LCD on and mode 2: the OAM bug may legitimately strike
 								}
+								before := *ob
 								m.Cycle()
+								if !armed && *ob != before {
+									// a machine cycle that began outside mode 2 (or with the LCD off): a byte may change only
+									// by a store of this program, i.e. to the value the reference has there
+									for i := range before {
+										if ob[i] != before[i] && ob[i] != exp[i] {
+											f := explore.Failf("OAM altered in a machine cycle outside mode 2",
+												"mode %s, line %d tick %d, pointer %04x, program % x: in cycle %d of an instruction (LCD on: %v, STAT mode before the cycle not 2) OAM[%d] changed %02x -> %02x; no store put that value there",
+												c.Mode, c.Line, tick, ptr, code, k+1, lcdOn(), i, before[i], ob[i])
+											f.Case = c17Case{Mode: c.Mode, Line: c.Line, From: c.From, To: c.To, Len: len(prog), Tick: tick, Prog: prog, Ptr: ptr, OnFor: c.OnFor, Pre: pre, Debug: c.Debug, Objs: c.Objs}
+											return f
+										}
+									}
+								}
 							}
 							l.Trans(1)
 						}
@@ -368,7 +381,7 @@ func init() {
 		if c.Thorough() {
 			n = 2
 		}
-		explore.Product(c.R, "oam-integrity", explore.PartOpt{Bound: fmt.Sprintf("programs of length <= %d (one extra block of length %d on line 1)", n, n+1), Domain: "switch-off at every cycle of lines 0,1,143,144,153; off-on-off; LCD on outside mode 2; the same with objects enabled and eight objects on the line (lines 1, 77, 143); switch-off at every cycle of lines 1 and 150 followed by one of 16 register writes (LY, STAT, LYC, LCDC with bit 7 clear, scroll, window, palettes, IF, IE); the LCD switched off at every cycle of lines 1 and 144 on a machine built with DebugLCD; DMA started + pointer instruction at every cycle of line 1 with the LCD on, then LCD off and NOPs until after the transfer"},
+		explore.Product(c.R, "oam-integrity", explore.PartOpt{Bound: fmt.Sprintf("programs of length <= %d (one extra block of length %d on line 1)", n, n+1), Domain: "switch-off at every cycle of lines 0,1,143,144,153; off-on-off; LCD on with the program started at every position of the line (a byte of OAM may change in a machine cycle that begins outside mode 2 only to a value the program stores there; OAM is observed after every cycle without a bus access); the same with objects enabled and eight objects on the line (lines 1, 77, 143); switch-off at every cycle of lines 1 and 150 followed by one of 16 register writes (LY, STAT, LYC, LCDC with bit 7 clear, scroll, window, palettes, IF, IE); the LCD switched off at every cycle of lines 1 and 144 on a machine built with DebugLCD; DMA started + pointer instruction at every cycle of line 1 with the LCD on, then LCD off and NOPs until after the transfer"},
 			func(yield func(c17Case) bool) {
 				for _, line := range []int{0, 1, 143, 144, 153} {
 					for from := 0; from < 114; from += 6 {
